@@ -275,7 +275,7 @@ def check(ctx):
     ctx.decide(ok, "C12-R5", sel, TOP, "Topology.select", "[a.index for a in self.atoms if f(a)]", "increasing order, exactly the atoms for which the expression is true",
                "the result is not built as the indices of self.atoms, in order, for which the expression holds")
     fmt = [n for n in walk_no_nested(sex) if isinstance(n, ast.Constant) and isinstance(n.value, str) and "for atom in topology.atoms if" in n.value]
-    ctx.decide(bool(fmt) and fmt[0].value.replace(" ", "").startswith("[atom.indexforatomintopology.atomsif{condition}"), "C12-R5", sex, TOP, "Topology.select_expression",
+    ctx.decide(any(f.value.replace(" ", "").startswith("[atom.indexforatomintopology.atomsif{condition}") for f in fmt), "C12-R5", sex, TOP, "Topology.select_expression",
                "source template", "", "the generated source no longer enumerates topology.atoms in order with the condition as filter")
     # .expr is compiled from the node .source is unparsed from
     call = ctx.py.func(SEL, "parse_selection.__call__")
